@@ -281,6 +281,14 @@ def h_pack_empty(stop: bytes) -> None:
     reached()
 
 
+def h_commit_during_pack(at1: int, at2: int) -> None:
+    """A commit made while a pack to "now" (a time after everything present at its start) is running is still there
+    afterwards: every transaction after the pack time is still listed, iterable and loadable (C08's pack_race harness, shard
+    late=True; imported lazily because C08 builds on this module's oracle)."""
+    from zverif.harness import c08
+    c08.h_pack_race(at1, at2, 1, 'commit', True)
+
+
 HARNESSES = [
     Harness('pack_file', h_pack_file,
             decides='FileStorage.pack to any time: all snapshots at/after it identical for reachable objects (data, revision '
@@ -303,6 +311,12 @@ HARNESSES = [
             decides='packing an empty database changes nothing', symbolic='stop (8 free bytes)', bounds='-', oracle='directory image',
             code=['FileStorage.pack', 'MappingStorage.pack'],
             quick=dict(timeout=60), thorough=dict(timeout=60)),
+    Harness('commit_during_pack', h_commit_during_pack,
+            decides='a commit injected at any lock operation / file-system call of a pack whose pack time lies after everything present '
+                    'at its start is listed, iterable and loadable afterwards and after reopen (C07 differential oracle)',
+            symbolic='injection point of the commit', bounds='history G1; one injected commit', oracle='differential (before / after)',
+            code=['FileStoragePacker.pack (catch-up phase: file_end, copyRest)', 'FileStorage.pack'],
+            quick=dict(timeout=100, shards=shards()), thorough=dict(timeout=300, shards=shards())),
 ]
 
 MANIFEST = dict(
